@@ -22,3 +22,9 @@ pub fn v_isize_to_usize(v: isize) -> (r: usize) requires v >= 0 ensures r == v {
 pub fn v_parse_isize(s: &str) -> (r: Result<isize, ()>) ensures (r is Ok) == (parse_isize_spec(s@) is Some), r is Ok ==> r->Ok_0 == parse_isize_spec(s@)->0 { s.parse::<isize>().map_err(|_| ()) }
 #[verifier::external_body]
 pub fn v_parse_i64(s: &str) -> (r: Result<i64, ()>) ensures (r is Ok) == (parse_i64_spec(s@) is Some), r is Ok ==> r->Ok_0 == parse_i64_spec(s@)->0 { s.parse::<i64>().map_err(|_| ()) }
+/// byte offset of the first occurrence of p in s (std str::find), None when absent
+pub uninterp spec fn byte_find(s: Seq<char>, p: Seq<char>) -> Option<int>;
+#[verifier::external_body]
+pub fn v_str_find(s: &str, p: &str) -> (r: Option<usize>)
+    ensures (r is Some) == (byte_find(s@, p@) is Some), r is Some ==> r->0 == byte_find(s@, p@)->0, r is Some ==> r->0 <= byte_len(s@)
+{ s.find(p) }
